@@ -276,6 +276,8 @@ func PVariants() []PVariant {
 	rdy("-1", false)
 	rdy("x", false)
 	rdy("18446744073709551616", false)
+	rdy("9223372036854775808", false)
+	rdy("18446744073709551615", false)
 	add("RDY (no arg)", []byte("RDY\n"), func(s *pstate) pexp {
 		if s.st == "sub" || s.st == "closing" {
 			return pexp{resp: []string{"NONE"}}
